@@ -261,7 +261,7 @@ func runC12(c c12Case) (bool, []string, error) {
 			switch op.Kind {
 			case "schema", "register":
 				touch("registry", op.Kind)
-			case "codec":
+			case "codec", "evolved":
 				touch("registry", op.Kind)
 			case "decode":
 				touch("codec", op.Kind)
@@ -408,6 +408,46 @@ func c12Run(g int, op c12Op, banks chan *avro.ResourceBank) error {
 			return err
 		}
 		return spec.Match(f.abs[vi], spec.Abs(f.ts, false, out.Elem()), "fresh codec decode")
+	case "evolved":
+		// the same Go type under another generation of its schema (same record name,
+		// top-level fields in reverse order), built and used while other goroutines
+		// work with the first generation: the reference decoder must find the value
+		// under THAT schema in what the new codec writes
+		evolved := fromLib(f.lib)
+		for i, j := 0, len(evolved.Fields)-1; i < j; i, j = i+1, j-1 {
+			evolved.Fields[i], evolved.Fields[j] = evolved.Fields[j], evolved.Fields[i]
+		}
+		lib2, err := avro.SchemaFromString(ref.Render(evolved, nil))
+		if err != nil {
+			return fmt.Errorf("SchemaFromString(evolved): %v", err)
+		}
+		c2, err := lib2.Codec(reflect.New(f.typ).Elem().Interface())
+		if err != nil {
+			return fmt.Errorf("Schema.Codec(evolved): %v", err)
+		}
+		wb := avro.NewWriteBuf(nil)
+		c2.Write(wb, f.values[vi].UnsafePointer())
+		d, err := ref.DecodeExact(evolved, append([]byte(nil), wb.Bytes()...))
+		if err != nil {
+			return fmt.Errorf("bytes written under the evolved schema are not an encoding of it: %v", err)
+		}
+		da := spec.AbsOfDatum(evolved, d)
+		for i, j := 0, len(da.Fields)-1; i < j; i, j = i+1, j-1 { // back into the order of the Go struct
+			da.Fields[i], da.Fields[j] = da.Fields[j], da.Fields[i]
+			da.Names[i], da.Names[j] = da.Names[j], da.Names[i]
+		}
+		if err := spec.Match(f.abs[vi], da, "written under the evolved schema"); err != nil {
+			return err
+		}
+		out := reflect.New(f.typ)
+		rb := avro.NewReadBuf(wb.Bytes())
+		if err := c2.Read(rb, out.UnsafePointer()); err != nil {
+			return fmt.Errorf("reading back under the evolved schema: %v", err)
+		}
+		if err := spec.Match(f.abs[vi], spec.Abs(f.ts, false, out.Elem()), "read back under the evolved schema"); err != nil {
+			return err
+		}
+		rb.ExtractResourceBank().Close()
 	case "register":
 		pt := privateTypes[g%len(privateTypes)]
 		avro.Register(pt, func(s avro.Schema, typ reflect.Type, omit bool) (avro.Codec, error) { return privCodec{}, nil })
@@ -590,7 +630,7 @@ func c12Run(g int, op c12Op, banks chan *avro.ResourceBank) error {
 func drawC12(t *rapid.T) c12Case {
 	var c c12Case
 	n := gen.UniformRange(t, "goroutines", 2, 8)
-	kinds := []string{"schema", "codec", "register", "decode", "encode", "readfile", "closebanks", "time", "decode", "encode", "time", "readfile", "encodefile", "readabort"}
+	kinds := []string{"schema", "codec", "register", "decode", "encode", "readfile", "closebanks", "time", "decode", "encode", "time", "readfile", "encodefile", "readabort", "evolved"}
 	for g := 0; g < n; g++ {
 		var p []c12Op
 		m := gen.UniformRange(t, "nops", 5, 40)
